@@ -324,6 +324,7 @@ type Contract struct {
 	Hints    []*Clause
 	CallHints []*Clause
 	Variants []*Clause
+	BaseExcludes []*Clause
 	Line     int
 }
 
@@ -461,6 +462,12 @@ func parseContracts(text string) (*ContractFile, error) {
 			cl := &Clause{Kind: "callhint", Label: w, Text: r, Line: ln + 1}
 			lastClause = cl
 			cur.CallHints = append(cur.CallHints, cl)
+		case "base-excludes":
+			// base-excludes <expr>: inputs outside the quantifier of the general properties
+			// (zero channel counts); the base run assumes the negation, the variants cover them
+			cl := &Clause{Kind: "base-excludes", Text: rest, Line: ln + 1}
+			lastClause = cl
+			cur.BaseExcludes = append(cur.BaseExcludes, cl)
 		case "variant":
 			// variant <prop> <expr>: the function is verified once more under the extra
 			// assumption; the safety obligations and the clauses labelled <prop> of that run belong to <prop>
